@@ -231,6 +231,19 @@ fn scan_cases(rng: &mut Rng, tier: &str, f: &mut dyn FnMut(&ScanCase) -> bool) {
             }
         }
     }
+    // random part: wide motifs (6..25 columns) on long sequences (300..3300): many near-tied windows, whose 8-bit images (rounded up
+    // cell by cell) are ordered differently from their exact scores - the regime in which the pruning bound of `max` must be the
+    // image of the best EXACT score seen so far, and in which a block maximum rarely decides alone
+    let nrand = if tier == "thorough" { 700 } else { 90 };
+    for rep in 0..nrand {
+        let m = 6 + rng.below(20);
+        let l = 300 + rng.below(3001);
+        let s = dna_seq(rng, l, rep % 5 == 4);
+        let cells = rand_cells(rng, m, rep % 5 != 4);
+        let thr = match rep % 3 { 0 => -1000.0, 1 => f32::NEG_INFINITY, _ => -(rng.below(40) as f32) };
+        let c = ScanCase { seq: to_text(&s), cells, thr, block: [1usize, 2, 7, 64, 256][rng.below(5)], consumed: rng.below(3) };
+        if !f(&c) { return; }
+    }
 }
 
 fn sweep_scan(which: &str, tier: &str, seed: u64) -> (usize, Option<String>) {
